@@ -591,7 +591,37 @@ func (c *Ctx) collectSubmatchUses(s *submatchSite, v ssa.Value, offset int, fn *
 				continue
 			}
 			// handed to an external (logging with %v): harmless
-		case *ssa.BinOp, *ssa.Phi, *ssa.Store, *ssa.MakeInterface, *ssa.Return, *ssa.Range:
+		case *ssa.Return:
+			// the match handed back by a helper of the repository ("split the rule line"): what
+			// the callers do with the result are uses of the same match
+			ri := -1
+			for i, rv := range x.Results {
+				if rv == v {
+					ri = i
+				}
+			}
+			if ri < 0 || !matchSelected && !s.all {
+				continue
+			}
+			for _, e := range c.Graph().In[fn] {
+				call, ok := e.Site.(*ssa.Call)
+				if !ok || staticFn(&call.Call) != fn {
+					continue
+				}
+				var got ssa.Value = call
+				if len(x.Results) > 1 {
+					got = nil
+					for _, rr := range referrers(call) {
+						if ex, ok := rr.(*ssa.Extract); ok && ex.Index == ri {
+							got = ex
+						}
+					}
+				}
+				if got != nil {
+					c.collectSubmatchUses(s, got, offset, e.Caller, depth+1, matchSelected)
+				}
+			}
+		case *ssa.BinOp, *ssa.Phi, *ssa.Store, *ssa.MakeInterface, *ssa.Range:
 			// comparisons with nil, logging, storing: not an element access
 			if _, isPhi := x.(*ssa.Phi); isPhi {
 				s.escapes = append(s.escapes, "merged with another value (phi)")
